@@ -393,6 +393,68 @@ func main() {
 			}
 			ro.(*store.Store).Discard()
 		}
+		// ---- proofs at the head while the next block is pending: uncommitted writes on the live store, its speculative root
+		// computed (as a proposer does) or not; a read-only store at the latest committed version must still prove exactly the
+		// committed state against the committed root, for keys the pending block touches in particular
+		{
+			head := vers[len(vers)-1]
+			var touched [][]byte
+			for i := 0; i < 3+r.Intn(10); i++ {
+				k := lib.JoinLenPrefix([]byte{1}, []byte(fmt.Sprintf("a-%03d", r.Intn(70))))
+				if _, ok := head.present[string(k)]; ok && r.Chance(50) {
+					_ = s.Delete(k)
+				} else {
+					_ = s.Set(k, r.Bytes(1+r.Intn(5)))
+				}
+				touched = append(touched, k)
+			}
+			speculative := r.Chance(70)
+			if speculative {
+				if _, e := s.Root(); e != nil {
+					panic(e)
+				}
+			}
+			ro, err := s.NewReadOnly(uint64(len(vers)))
+			if err != nil {
+				panic(err)
+			}
+			for i := 0; i < 10; i++ {
+				k := touched[r.Intn(len(touched))]
+				if r.Chance(25) {
+					k = lib.JoinLenPrefix([]byte{1}, []byte(fmt.Sprintf("a-%03d", r.Intn(70))))
+				}
+				val, present := head.present[string(k)]
+				var ok, okWrong bool
+				var e2 lib.ErrorI
+				func() {
+					defer func() {
+						if p := recover(); p != nil {
+							sim.Direct(*outDir, map[string]any{"finding": "store-proof-panic", "kind": "panic", "panic": fmt.Sprint(p)})
+						}
+					}()
+					proof, e := ro.(*store.Store).GetProof(k)
+					if e != nil {
+						e2 = e
+						return
+					}
+					ok, e2 = ro.(*store.Store).VerifyProof(k, val, present, head.root, proof)
+					// the opposite claim about the committed state must not verify against the committed root
+					wrongVal := val
+					if !present {
+						wrongVal = []byte{1}
+					}
+					okWrong, _ = ro.(*store.Store).VerifyProof(k, wrongVal, !present, head.root, proof)
+				}()
+				st.StoreProof++
+				if !ok || e2 != nil {
+					sim.Direct(*outDir, map[string]any{"finding": "store-proof-incomplete", "kind": "honest proof at the head rejected while the next block is pending", "speculative_root": speculative, "present": present, "error": fmt.Sprint(e2)})
+				}
+				if okWrong {
+					sim.Direct(*outDir, map[string]any{"finding": "store-proof-unsound", "kind": "the opposite claim verified against the committed root while the next block is pending", "speculative_root": speculative, "present": present})
+				}
+			}
+			ro.(*store.Store).Discard()
+		}
 		s.Close()
 	}
 	cw.Close(st)
